@@ -7,6 +7,7 @@ import (
 	"math/big"
 	"os"
 	"path/filepath"
+	"strconv"
 	"strings"
 	"sync"
 	"sync/atomic"
@@ -71,6 +72,26 @@ func errStr(err error) string {
 		return "<nil>"
 	}
 	return "error"
+}
+
+// selfContained returns the error's text and checks that it does not change when the caller reuses the byte slice
+// it passed in: an error (or any other result) that still points into the caller's memory is shared state the
+// caller never agreed to, and reading it while the buffer is rewritten elsewhere is a data race.
+func selfContained(name string, data []byte, err error) string {
+	text := func() string {
+		if err == nil {
+			return ""
+		}
+		return err.Error()
+	}
+	before := text()
+	for i := range data {
+		data[i] = '#'
+	}
+	if after := text(); after != before {
+		panic("IMPURE: the error returned by " + name + " refers to the caller's buffer: it read " + strconv.Quote(before) + " and, after the buffer was overwritten, " + strconv.Quote(after))
+	}
+	return errStr(err)
 }
 
 // c20Flip alternates the earlier contents of big receivers between executions of the same call.
@@ -258,7 +279,7 @@ var c20Entries = []c20Entry{
 		if string(data) != c.S {
 			panic("IMPURE: UnmarshalText modified its input")
 		}
-		return append(bitsSig(d), errStr(err))
+		return append(bitsSig(d), selfContained("UnmarshalText", data, err))
 	}},
 	{"UnmarshalJSON", nil, func(c *c20Call) []string {
 		data := []byte(c.S)
@@ -267,7 +288,7 @@ var c20Entries = []c20Entry{
 		if string(data) != c.S {
 			panic("IMPURE: UnmarshalJSON modified its input")
 		}
-		return append(bitsSig(d), errStr(err))
+		return append(bitsSig(d), selfContained("UnmarshalJSON", data, err))
 	}},
 	{"UnmarshalBinary", nil, func(c *c20Call) []string {
 		data := []byte(c.S)
@@ -276,7 +297,7 @@ var c20Entries = []c20Entry{
 		if string(data) != c.S {
 			panic("IMPURE: UnmarshalBinary modified its input")
 		}
-		return append(bitsSig(d), errStr(err))
+		return append(bitsSig(d), selfContained("UnmarshalBinary", data, err))
 	}},
 	{"Sscan", nil, func(c *c20Call) []string {
 		var d d128.Decimal
@@ -295,7 +316,7 @@ var c20Entries = []c20Entry{
 		if string(data) != c.S {
 			panic("IMPURE: Compose modified its input")
 		}
-		return append(bitsSig(d), errStr(err))
+		return append(bitsSig(d), selfContained("Compose", data, err))
 	}},
 	{"Decompose", nil, func(c *c20Call) []string {
 		var buf []byte
@@ -591,6 +612,25 @@ func genCall(t *rapid.T, forConcurrency bool) c20Call {
 	if ir(t, 0, 2, "related") == 0 {
 		c.Y = genNearValue(t, c.X)
 	}
+	// the arithmetic entry points also get the operand pairs the correctness checks construct (ties, near-ties,
+	// alignment gaps, products and quotients steered to the internal thresholds): a panic or a hang hides behind
+	// the same thin conditions as a wrong digit
+	if ir(t, 0, 2, "constructed") == 0 {
+		switch {
+		case strings.HasPrefix(e.name, "Add") || strings.HasPrefix(e.name, "Sub"):
+			c.X, c.Y = genAddPair(t)
+		case strings.HasPrefix(e.name, "Mul") || (strings.HasPrefix(e.name, "Quo") && !strings.HasPrefix(e.name, "QuoRem")):
+			c.X, c.Y, _ = genMulQuoPair(t)
+		case strings.HasPrefix(e.name, "QuoRem"):
+			c.X, c.Y = genQuoRemPair(t)
+		case strings.HasPrefix(e.name, "Pow"):
+			c.X, c.Y = genPowPair(t)
+		case e.name == "Sqrt":
+			c.X = genRootArg(t, false)
+		case e.name == "Cbrt":
+			c.X = genRootArg(t, true)
+		}
+	}
 	c.I = genHostileInt(t)
 	c.J = int64(u64(t, "J")) >> uint(ir(t, 0, 63, "Jshift"))
 	if ir(t, 0, 3, "Jbound") == 0 {
@@ -662,6 +702,31 @@ func TestC20_Call(t *testing.T) {
 			a.Default = uint8(ir(t, 6, 255, "invalidDefault"))
 		}
 		c20.Run(t, a)
+	})
+}
+
+// TestC20_Arith gives the arithmetic entry points, which are 14 of the 82, a budget of their own with operands
+// from the correctness checks' constructors only (totality, purity and determinism oracles as in TestC20_Call).
+func TestC20_Arith(t *testing.T) {
+	names := []string{"Add", "Sub", "Mul", "Quo", "Pow", "QuoRem", "AddWithMode", "SubWithMode", "MulWithMode", "QuoWithMode", "PowWithMode", "QuoRemWithMode", "Sqrt", "Cbrt"}
+	runRapid(t, 30000, 1000000, func(t *rapid.T) {
+		c := c20Call{Op: names[ir(t, 0, len(names)-1, "op")], M: uint8(ir(t, 0, 5, "mode")), B: 'e'}
+		switch {
+		case strings.HasPrefix(c.Op, "Add") || strings.HasPrefix(c.Op, "Sub"):
+			c.X, c.Y = genAddPair(t)
+		case strings.HasPrefix(c.Op, "QuoRem"):
+			c.X, c.Y = genQuoRemPair(t)
+		case strings.HasPrefix(c.Op, "Mul") || strings.HasPrefix(c.Op, "Quo"):
+			c.X, c.Y, _ = genMulQuoPair(t)
+		case strings.HasPrefix(c.Op, "Pow"):
+			c.X, c.Y = genPowPair(t)
+		default:
+			c.X = genRootArg(t, c.Op == "Cbrt")
+		}
+		if rapid.Bool().Draw(t, "swap") {
+			c.X, c.Y = c.Y, c.X
+		}
+		c20.Run(t, c20Args{Call: c, Default: uint8(ir(t, 0, 5, "default"))})
 	})
 }
 
